@@ -44,13 +44,15 @@ pub struct Run {
     pub str_fill: usize,        // C05: 0 = zero-filled &mut str; k = pre-filled with valid multi-byte text (3-byte characters) at phase k-1
     pub sym_fill: u32,          // C18: 0 = off; t = destination pre-filled with fresh symbolic units (tags t, t+1, ...)
     pub keep_prefix: bool,      // C06: String / Vec sinks start with existing content that must survive, capacity unchanged
+    pub stall_ok: bool,         // C06, destinations below the documented minimum: an OutputFull call without progress ends the run
+    pub stalled: bool,
 }
 
 impl Run {
     pub fn new(cap: usize) -> Run {
         Run { log: Log::new(), calls: 0, total_read: 0, had_errors: false, output_full_seen: false, finished: false,
               caps: [cap; 8], ncaps: 1, cap_lo: cap, cap_hi: cap, drawn: 0, max_calls: 200, min_progress: true, full_while_pending: false, prefix_check: 0,
-              wf_check: false, str_fill: 0, sym_fill: 0, keep_prefix: false }
+              wf_check: false, str_fill: 0, sym_fill: 0, keep_prefix: false, stall_ok: false, stalled: false }
     }
     /// symbolic per-call capacities in lo..=hi for the first `n` calls (then cycled)
     pub fn sym_caps(&mut self, lo: usize, hi: usize, n: usize) { self.cap_lo = lo; self.cap_hi = hi; self.ncaps = n; self.drawn = 0; }
@@ -115,6 +117,7 @@ pub fn push_noreplace(dec: &mut Decoder, sink: usize, src: &[u8], last: bool, ru
             }
             DecoderResult::OutputFull => {
                 run.output_full_seen = true;
+                if run.stall_ok && read == 0 && written == 0 { run.stalled = true; return; }
                 if run.min_progress { check(read > 0 || written > 0, 104); }
             }
             DecoderResult::Malformed(l, after) => {
@@ -180,6 +183,7 @@ pub fn push_replace(dec: &mut Decoder, sink: usize, src: &[u8], last: bool, run:
             }
             CoderResult::OutputFull => {
                 run.output_full_seen = true;
+                if run.stall_ok && read == 0 && written == 0 { run.stalled = true; return; }
                 if run.min_progress { check(read > 0 || written > 0, 104); }
             }
         }
